@@ -533,6 +533,12 @@ def run_route(case, route):
     else:
         try:
             raw, m = build_first()
+            if m is None and case.get("callform", 0) % 5 == 4:
+                # the class is instantiated directly on raw data that was NOT prepared before (documented use of raw
+                # containers): the class is the one the standard route gives for equal data
+                cls = type(_instanciate_raw_mesh_data(raw, dim))
+                raw = build_raw(case, route, keep)
+                m = cls(raw)
             if m is None:
                 m = instantiate(raw, dim, case)
             o = observe(m)
